@@ -1061,6 +1061,20 @@ impl Mon {
             .filter(|r| r.out.probes.iter().any(|p| p.0 == "remote_call_unresolved_args"))
             .map(|r| w.ids[r.peer].clone())
             .collect();
+        // positions inside a fold iteration's after-`next` window: in generated scripts only the last instruction of a
+        // stream fold puts call states there (finding F22: it runs once per generation group, and groupings differ)
+        let mut after_ranges: Vec<(usize, usize)> = vec![];
+        for s in d.trace.iter() {
+            if let ExecutedState::Fold(f) = s {
+                for l in &f.lore {
+                    if let Some(a) = l.subtraces_desc.get(1) {
+                        let b: usize = a.begin_pos.into();
+                        after_ranges.push((b, b + a.subtrace_len as usize));
+                    }
+                }
+            }
+        }
+        let has_last_instr_calls = self.analysis.calls.values().any(|c| c.multi);
         for (i, s) in d.trace.iter().enumerate() {
             let mut f2 = false;
             let stuck = match s {
@@ -1081,8 +1095,11 @@ impl Mon {
                 for r in &w.runs {
                     t.extend(r.taint.iter().cloned());
                 }
-                let known = self.known.classify("C19", "stuck-at-quiescence", &t, &dd);
-                let v = Violation { prop: "C19".into(), tag: "stuck-at-quiescence".into(), detail: dd, eid: w.events.last().map(|e| e.0).unwrap_or(0), known: known.clone() };
+                let in_after = has_last_instr_calls && after_ranges.iter().any(|(a, b)| i >= *a && i < *b);
+                let tag = if in_after { "stuck-at-quiescence-last-instruction" } else { "stuck-at-quiescence" };
+                let dd = if in_after { format!("{dd}\n(state {i} sits in a stream fold's after-window: a call of the fold's last instruction)") } else { dd };
+                let known = self.known.classify("C19", tag, &t, &dd);
+                let v = Violation { prop: "C19".into(), tag: tag.into(), detail: dd, eid: w.events.last().map(|e| e.0).unwrap_or(0), known: known.clone() };
                 if known.is_some() {
                     self.known_hits.push(v);
                 } else {
